@@ -136,6 +136,7 @@ class Run:
         self.offender = None   # ... of the primitive whose event the state machine refused
         self.refused = None    # the last event handed to StateMachine.do_action
         self.failed = None
+        self.late_jump = False  # the clock passed the ARTIM deadline in the middle of an iteration (A_P_RQ_LATE)
 
     # -- one environment action -------------------------------------------------------------------------
     def perform(self, a):
@@ -155,6 +156,7 @@ class Run:
                 if not dul.artim_timer.running:
                     out_of_bounds()
                 self.clock.jump_after = 1   # after the reactor's expiry check of this iteration
+                self.late_jump = True
             if a == A_T_RQ:
                 # two environment events between two iterations: the ARTIM deadline has passed AND the peer's
                 # request has become readable; PS3.8: the expiry is what the provider sees first (ARTIM is checked
@@ -287,7 +289,7 @@ def _judge(start, steps):
         if (h.excluded(KF_ABORT_STA2) and cell in _kf_cells(KF_ABORT_STA2) and r.offender is not None
                 and r.offender[1] == V_ACC_WAIT):
             out_of_bounds()
-        if h.excluded(KF_ARTIM) and cell in _kf_cells(KF_ARTIM) and not r.p.dul.artim_timer.running:
+        if h.excluded(KF_ARTIM) and cell in _kf_cells(KF_ARTIM) and not r.p.dul.artim_timer.running and r.late_jump:
             out_of_bounds()
     return False
 
@@ -302,7 +304,7 @@ def classify(start, steps):
         return KF_STALE
     if ev == "Evt15" and state in ("Sta2", "Sta13") and r.offender is not None and r.offender[1] == V_ACC_WAIT:
         return KF_ABORT_STA2
-    if ev == "Evt18" and not r.p.dul.artim_timer.running:
+    if ev == "Evt18" and not r.p.dul.artim_timer.running and r.late_jump:
         return KF_ARTIM
     return "invalid-event"
 
